@@ -38,7 +38,7 @@ def run(tier):
                 # quick tier: option variants on every 4th generated world (and the whole corpus)
                 if tier == "quick" and variant and i < len(paths) and i % 4 != 0:
                     continue
-                sup = supported(lang, f["features"], variant, excl[lang])
+                sup = supported(lang, f["features"], variant, excl[lang], p, f)
                 jobs.append({"lang": lang, "variant": variant, "wit": p, "args": args, "supported": sup,
                              "out": os.path.join(wd, "out", lang + "-" + (variant or "default"), str(i)),
                              "world": worlds[i] if i < len(paths) else {"corpus": os.path.basename(p)}})
